@@ -64,8 +64,8 @@ def decide(prop, tier, res, t0, extra=None):
     for e in sel:
         if "error" in e:
             errors.append(f"entry not analysed: {e['entry']}: {e['error']}")
-    if res["facts"]["unsupported"]:
-        errors.append("unsupported HIR constructs: " + "; ".join(res["facts"]["unsupported"][:5]))
+    # HIR constructs the exporter does not lower are `unsupported` nodes: an entry point that evaluates one is reported
+    # as not analysed (below); the others are unaffected
     obligations = []
     for e in sel:
         for o in e.get("obligations", []):
